@@ -27,6 +27,7 @@ def entropic_mirror_descent(loss_and_grad, x0, total, iters=250):
 
     for _ in range(iters):
         logQ = logP - alpha*dL
+        logQ -= logQ.max() # shift first: a normaliser of huge magnitude would round log(total) away
         logQ += np.log(total) - logsumexp(logQ)
         Q = np.exp(logQ)
         #Q = P * np.exp(-alpha*dL)
